@@ -184,7 +184,11 @@ class ConcentrationAnalysis:
         if baseline_images is not None:
             # Combine the results of a series of images
             for img in baseline_images:
-                probe_img = img.copy()
+                # Make sure that the image is converted to float for substraction
+                if img.img.dtype not in [float, np.float32, np.float64]:
+                    probe_img = img.img_as(float)
+                else:
+                    probe_img = img.copy()
 
                 # Take (unsigned) difference
                 diff = self._subtract_background(probe_img)
